@@ -61,10 +61,21 @@ def result(ctx, sim, outcome=None, extra_stats=None):
         'taken': dict(D.taken),
         'ndec': D.consulted,
         'sample': ctx.sample,
-        'tail': sim.log_tail(40) if (sim is not None and (ctx.violations or sim.keep_log)) else None,
+        'tail': _tail(sim, ctx),
         'head': sim.log_head(40) if (sim is not None and sim.keep_log) else None,
         'seed': D.seed,
     }
+
+
+def _tail(sim, ctx):
+    if sim is None or not (ctx.violations or sim.keep_log):
+        return None
+    if sim.keep_log and ctx.violations:
+        # the 40 events leading to the first violation (a serial twin or later work may follow it)
+        for i, rec in enumerate(sim.log):
+            if len(rec) > 3 and rec[3] == 'VIOLATION':
+                return [list(map(kernel._plain, r)) for r in sim.log[max(0, i - 40):i + 1]]
+    return sim.log_tail(40)
 
 
 def guarded(pid, fn, D, opts):
